@@ -87,9 +87,13 @@ typedef struct vh_ctx {
     const vh_sig_t * sigs; int nsigs; /* indexed by command tag - 1 */
     vh_inv_t inv[VH_MAX_INV]; int ninv;
     void * user;
+    const scpi_command_t * cmds; const scpi_unit_def_t * units;
 } vh_ctx_t;
 
 vh_ctx_t * vh_ctx_new(const scpi_command_t * cmds, size_t inbuf_len, int queue_len, size_t heap_len);
+/* the application initialises the SAME context object and buffers again (instrument reset, interface re-opened): queued texts are released
+ * first, the memory is scribbled, then SCPI_Init / SCPI_InitHeap run as in vh_ctx_new. Afterwards the context must behave like a new one. */
+void vh_ctx_reinit(vh_ctx_t * v);
 void vh_ctx_free(vh_ctx_t * v);      /* drains the error queue first (releases texts) */
 void vh_ctx_clear_capture(vh_ctx_t * v);
 #define VH_OF(context) ((vh_ctx_t *) (context)->user_context)
